@@ -66,6 +66,9 @@ class SideSampler:
         self.log.append(('SE', self.ci))
 
 
+RESIZE = [0]  # != 0: the side samplers are built with slen + RESIZE entries and set to slen after the scheduler was constructed
+
+
 def build(geo, bud, cfgs, start=None, plain=False):
     from kappadata.samplers.interleaved_sampler import InterleavedSampler, InterleavedSamplerConfig
     N, B, drop_last, dlbs = geo
@@ -73,7 +76,7 @@ def build(geo, bud, cfgs, start=None, plain=False):
     main = (PlainMainSampler if plain else MainSampler)(N, log)
     configs = [
         InterleavedSamplerConfig(
-            sampler=SideSampler(ci, c[3], c[4], log),
+            sampler=SideSampler(ci, max(0, c[3] + RESIZE[0]), c[4], log),
             every_n_epochs=c[0], every_n_updates=c[1], every_n_samples=c[2], batch_size=c[5],
         )
         for ci, c in enumerate(cfgs)
@@ -83,6 +86,10 @@ def build(geo, bud, cfgs, start=None, plain=False):
         kwargs[start[0]] = start[1]
     s = InterleavedSampler(main_sampler=main, batch_size=B, configs=configs, drop_last=drop_last,
                            drop_last_batch_size=dlbs, **kwargs)
+    if RESIZE[0]:
+        # a config sampler whose length is changed later (WeightedSampler.size, samples_per_class, a shortened list ...)
+        for cfg, c in zip(configs, cfgs):
+            cfg.sampler.slen = c[3]
     return s, log
 
 
